@@ -5,48 +5,40 @@ Model: `SerfModel.SnapshotFault` — the snapshotter of `SerfModel.Snapshot` wit
 file-system operation failing (index `fault` among the operations that reach the OS):
 `tryAppend`'s error path and its recovery compaction (at most one per
 snapshotErrorRecoveryInterval), every early return of `compact()`, the sticky error of a
-bufio writer, `s.buffered` / `s.fh` being nil, nil-pointer panics.
+bufio writer, writes through a closed handle, remove of an already removed file.
 
-FULL STATEMENT (DESIGN 7 C12) — does NOT hold for the code (finding `fault-panic-nil-handles`):
-
-  theorem C12_no_panic (rj mc) (evs) (clk) (k) : (fLife rj mc (some k) evs clk).panicked = false
-
-`compact()` sets `s.buffered = nil` and `s.fh = nil` BEFORE remove / rename / reopen; when one
-of these three fails it returns with both handles nil.  The error makes `tryAppend` start a
-recovery compaction at once, whose `s.buffered.Flush()` dereferences the nil writer; otherwise
-the next `appendLine` or the shutdown flush does.  `C12_nil_handles_counterexample` (decide),
-confirmed on the real code for every compaction of every generated life (hooks, and through
-the real goroutines where the process dies).
-
-PROVED: `C12_no_panic_partial` — for EVERY history (incl. leave, forced compactions, recovery
-interval elapsing), threshold, flag and fault index: if the operation that failed is NOT
-compact()'s remove, rename or reopen of the snapshot file, the snapshotter never panics —
-neither during the events nor at shutdown.
-NOT PROVED: `C12_resumes` (after the fault, once later appends succeed, a restart reflects all
-changes): judged on the real code by the monitor (`fault-not-resumed`) at every fault index of
-every generated life, and compared with the model's recovery.
+PROVED: `C12_no_panic` — for EVERY history (incl. leave, forced compactions, recovery interval
+elapsing), threshold, flag and EVERY fault index — no operation excluded — the snapshotter
+never panics, neither during the events nor at shutdown.  (Since e2c64f9 compact() leaves the
+closed old handles in place until the new ones are installed.)
+Regression witness for the code BEFORE that fix (`nilOnSwap := true`), by `decide`:
+`C12_nil_handles_counterexample_oldshape` (a failed remove / rename / reopen left both handles
+nil and the next append panicked); the same faults now: `C12_nil_handles_fixed`.
+NOT PROVED: `C12_resumes` (after the fault, a restart reflects all later changes): judged on
+the real code by the monitor (`fault-not-resumed`) at every fault index of every generated
+life, and compared with the model's recovery.
 -/
 import SerfProofs.Lemmas.SnapshotFault
 namespace SerfProofs.C12
 open SerfModel SerfModel.Snapshot SerfModel.SnapshotFault SerfProofs.SnapshotFault
 
-/-- **No panic under any single I/O fault other than the three nil-handle faults.** -/
-theorem C12_no_panic_partial (rj : Bool) (mc : Nat) (fault : Option Nat) (evs : List FEv) (clk : Nat)
-    (hb : badFault (fLife rj mc fault evs clk).failed = false) :
+/-- **No panic under any single I/O fault.** -/
+theorem C12_no_panic (rj : Bool) (mc : Nat) (fault : Option Nat) (evs : List FEv) (clk : Nat) :
     (fLife rj mc fault evs clk).panicked = false :=
-  ((fShutdown_inv _ clk (fRun_inv evs _ (fInit_inv rj mc fault))).2 hb).1
+  (fShutdown_P _ clk (fRun_P evs _ (fInit_P rj mc fault))).2.2
 
 def cexEvs : List FEv := [.ev (.join [(['a'], ['1', ':', '2'])] 2), .ev .forceCompact, .ev (.clockTick 9)]
 
-/-- non-vacuity: faults that are survived (a write, the open / sync / close of path.compact, …) -/
-example : ∀ k ∈ [1, 2, 3, 4, 5, 6, 7, 11, 12, 13], badFault (fLife false 0 (some k) cexEvs 9).failed = false := by decide
+/-- **Before e2c64f9** (`nilOnSwap := true`): join, a compaction, a clock tick; if the
+compaction's remove (operation 8), rename (9) or reopen (10) failed, the next append panicked. -/
+theorem C12_nil_handles_counterexample_oldshape :
+    (fLife false 0 (some 8) cexEvs 9 true).panicked = true ∧ (fLife false 0 (some 8) cexEvs 9 true).failed = some (.remove .main) ∧
+    (fLife false 0 (some 9) cexEvs 9 true).panicked = true ∧ (fLife false 0 (some 10) cexEvs 9 true).panicked = true ∧
+    (fLife false 0 (some 7) cexEvs 9 true).panicked = false := by decide
 
-/-- **Finding `fault-panic-nil-handles`**: join, a compaction, a clock tick; if the
-compaction's remove (operation 8), rename (9) or reopen (10) fails, the next append panics
-(nil bufio writer); any other single fault is survived. -/
-theorem C12_nil_handles_counterexample :
-    (fLife false 0 (some 8) cexEvs 9).panicked = true ∧ (fLife false 0 (some 8) cexEvs 9).failed = some (.remove .main) ∧
-    (fLife false 0 (some 9) cexEvs 9).panicked = true ∧ (fLife false 0 (some 10) cexEvs 9).panicked = true ∧
-    (fLife false 0 (some 7) cexEvs 9).panicked = false ∧ (fLife false 0 none cexEvs 9).panicked = false := by decide
+/-- **Now**: the same faults are survived, and the snapshot still holds the member. -/
+theorem C12_nil_handles_fixed :
+    ∀ k ∈ [8, 9, 10], (fLife false 0 (some k) cexEvs 9).panicked = false ∧
+      (recover false (FS.applyAll {} (fLife false 0 (some k) cexEvs 9).done)).alive = [(['a'], ['1', ':', '2'])] := by decide
 
 end SerfProofs.C12
